@@ -226,6 +226,22 @@ func (in *Inst) Close() {
 	}
 }
 
+// RepeatedFlowID returns a description of the first flow id that is announced
+// (NewFlowTrace) more than once in the stream, or "".
+func RepeatedFlowID(traces []tracing.ITrace) string {
+	seen := map[string]int{}
+	for i, t := range traces {
+		if nf, ok := t.(bpmn.NewFlowTrace); ok {
+			id := nf.FlowId.String()
+			if at, dup := seen[id]; dup {
+				return fmt.Sprintf("flow id %s is announced by NewFlowTrace at trace %d and again at trace %d", id, at, i)
+			}
+			seen[id] = i
+		}
+	}
+	return ""
+}
+
 // Summary is the comparable digest of a trace slice.
 type Summary struct {
 	Requests  []string
